@@ -386,14 +386,19 @@ def model_check(ctx, pid):
     configs = list(MC.get(pid, []))
     if not ctx.quick():
         configs += MC_THOROUGH.get(pid, [])
-    for name, consts, invs in configs:
+    def one(c):
+        name, consts, invs = c
         cfg = os.path.join(ctx.scratch, "ManagerMC_%s_%s.cfg" % (pid, name))
         with open(cfg, "w") as fh:
             if name.startswith("liveness"):      # C09: EnvDone ~> Settled under weak fairness of the job steps, no state constraint
                 fh.write(mc_config(name, consts, [], spec="MCFairSpec", props=["Settles"]))
             else:
                 fh.write(mc_config(name, consts, invs))
-        res = run_tlc(ctx, "ManagerMC", os.path.basename(cfg), files=[cfg], workers=12, timeout=900 if ctx.quick() else 3000)
+        return run_tlc(ctx, "ManagerMC", os.path.basename(cfg), files=[cfg], workers=8, timeout=900 if ctx.quick() else 3000)
+    # two configurations at a time (TLC does not scale linearly with its workers; 2 x 14 GB heap fit the machine)
+    with concurrent.futures.ThreadPoolExecutor(max_workers=2) as ex:
+        results = list(ex.map(one, configs))
+    for (name, consts, invs), res in zip(configs, results):
         total_d += res.distinct
         total_g += res.generated
         if res.error:
